@@ -198,10 +198,22 @@ func init() {
 	}
 	reg(iter(false), "cosmossdk.io/store/types.KVStorePrefixIterator")
 	reg(iter(true), "cosmossdk.io/store/types.KVStoreReversePrefixIterator")
-	regInvoke(func(c *Call) Val { it := c.Args[0].(*IterV); return smt.BoolC(it.Pos < len(it.Rows)) }, "Iterator.Valid")
+	// Iterators are abstract: each position yields an arbitrary row (an over-approximation of
+	// any table contents, including rows written on this path). Loops over them fork until
+	// the block-visit cap and must therefore sit in functions declared abstract.
+	regInvoke(func(c *Call) Val {
+		it := c.Args[0].(*IterV)
+		return smt.Var(it.ID+"!valid!"+itoa(it.Pos), smt.Bool)
+	}, "Iterator.Valid")
 	regInvoke(func(c *Call) Val { c.Args[0].(*IterV).Pos++; return nil }, "Iterator.Next")
-	regInvoke(func(c *Call) Val { it := c.Args[0].(*IterV); return it.Rows[it.Pos].Val }, "Iterator.Value")
-	regInvoke(func(c *Call) Val { it := c.Args[0].(*IterV); return it.Rows[it.Pos].Key }, "Iterator.Key")
+	regInvoke(func(c *Call) Val {
+		it := c.Args[0].(*IterV)
+		return &BytesV{Tag: "row", Row: &RowRef{Base: it.ID + "!" + itoa(it.Pos)}}
+	}, "Iterator.Value")
+	regInvoke(func(c *Call) Val {
+		it := c.Args[0].(*IterV)
+		return &BytesV{Tag: "iterkey", Args: []*smt.Term{smt.Var(it.ID+"!key!"+itoa(it.Pos), smt.Key)}}
+	}, "Iterator.Key")
 	regInvoke(func(c *Call) Val { return c.Ex.nilErr() }, "Iterator.Close", "Iterator.Error")
 
 	// ---- bank ----
@@ -337,6 +349,5 @@ func (ex *Exec) makeIterator(st *StoreV, p *BytesV, reverse bool, c *Call) Val {
 		full = &ns
 	}
 	idPrefix, _ := tableID(full, nil)
-	ex.abort("store iteration over %s is not modelled (declare the enclosing function abstract)", idPrefix)
-	return nil
+	return &IterV{ID: ex.site("iter!" + idPrefix)}
 }
